@@ -137,7 +137,10 @@ Definition chk_C02 (c : chain_case) (o : op) (ok : bool) (prev cur : val) : list
 (* C04: through a swap or a route the pool manager's balance moves exactly as the reported reserves do
    (everything that leaves the reserves is sent or burned, everything offered is added) *)
 Definition recv_is_pm (r : option string) : bool := match r with Some a => String.eqb a PM | None => false end.
+(* (when the owner has made the pool manager its own fee collector, protocol fees stay with it as unreported excess) *)
+Definition fc_is_pm (s : val) : bool := String.eqb (vgetS (vnth 0 (vnth 0 (vnth 4 s)))) PM.
 Definition chk_C04 (c : chain_case) (o : op) (ok : bool) (prev cur : val) : list Z :=
+  if fc_is_pm prev then [] else
   match is_tx_pm o with
   | Some (_, PmSwap _ _ _ r _, _) | Some (_, PmRoute _ _ r _, _) =>
       if ok && negb (recv_is_pm r) &&
@@ -239,6 +242,46 @@ Definition mon_C15 := mon_steps chk_C15.
 Definition mon_C17 := mon_steps chk_C17.
 Definition mon_C20 := mon_steps chk_C20.
 Definition mon_C01s := both mon_C01 mon_C04.   (* reserves backed, and moved exactly with the balance by swaps *)
+(* C01, the excess clause: what the pool manager holds beyond the reported reserves changes ONLY by tokens sent to it
+   outside pool operations (plain bank sends; proceeds a trader directs to the pool manager's own address), by the single
+   indivisible unit of an odd single-asset deposit, and by the minimum liquidity minted to it at a pool's first deposit *)
+Definition excess (c : chain_case) (s : val) (d : string) : Z := pm_balance_of c s d - reserves_of s d.
+Definition coins_total (funds : list coin) : Z := fold_left (fun acc c => acc + amount_of c) funds 0.
+Definition single_denom (funds : list coin) : option string :=
+  match funds with
+  | c :: r => if forallb (fun x => String.eqb (denom_of x) (denom_of c)) r then Some (denom_of c) else None
+  | [] => None
+  end.
+Definition first_deposit_lp (c : chain_case) (prev : val) (pid : string) : option string :=
+  match find_pool prev pid with
+  | Some p => if supply_of c prev (pool_lp p) =? 0 then Some (pool_lp p) else None
+  | None => None
+  end.
+Definition chk_C01x (c : chain_case) (o : op) (ok : bool) (prev cur : val) : list Z :=
+  let ds := denoms_of_snapshot c cur in
+  let delta d := excess c cur d - excess c prev d in
+  let all_zero_but (allowed : string -> Z -> bool) := forallb (fun d => (delta d =? 0) || allowed d (delta d)) ds in
+  if fc_is_pm prev then [] else
+  if negb ok then (if all_zero_but (fun _ _ => false) then [] else [41]) else
+  match o with
+  | BankSendOp _ to amount =>
+      if String.eqb to PM then (if forallb (fun d => delta d =? sum_where snd (fun x => String.eqb (fst x) d) amount) ds then [] else [41])
+      else if all_zero_but (fun _ _ => false) then [] else [41]
+  | Tx _ target (WPm (PmSwap _ _ _ r _)) _ | Tx _ target (WPm (PmRoute _ _ r _)) _ =>
+      if recv_is_pm r || negb (String.eqb target PM) then [] else if all_zero_but (fun _ _ => false) then [] else [41]
+  | Tx _ target (WPm (PmProvide _ _ r pid _ _)) funds =>
+      if negb (String.eqb target PM) || recv_is_pm r then [] else
+      let odd := match single_denom funds with Some d0 => Some (d0, coins_total funds mod 2) | None => None end in
+      let lp1 := first_deposit_lp c prev pid in
+      if all_zero_but (fun d z => match odd with Some (d0, u) => String.eqb d d0 && (z =? u) | None => false end ||
+                                  match lp1 with Some lp => String.eqb d lp && (0 <=? z) | None => false end)
+      then [] else [41]
+  | Tx _ _ _ _ => if all_zero_but (fun _ _ => false) then [] else [41]
+  | _ => if all_zero_but (fun _ _ => false) then [] else [41]
+  end.
+Definition mon_C01x := mon_steps chk_C01x.
+Definition mon_C01f (c : chain_case) (obs : val) : list Z := (mon_C01 c obs ++ mon_C04 c obs ++ mon_C01x c obs)%list.
 Definition mon_all (c : chain_case) (obs : val) : list Z :=
   (mon_C01 c obs ++ mon_C05 c obs ++ mon_C16 c obs ++ mon_C02 c obs ++ mon_C03 c obs ++ mon_C04 c obs ++ mon_C06 c obs ++
-   mon_C08 c obs ++ mon_C11 c obs ++ mon_C14 c obs ++ mon_C15 c obs ++ mon_C17 c obs ++ mon_C20 c obs)%list.
+   mon_C01x c obs ++ mon_C08 c obs ++ mon_C11 c obs ++ mon_C14 c obs ++ mon_C15 c obs ++ mon_C17 c obs ++ mon_C20 c obs)%list.
+
